@@ -38,6 +38,7 @@ def shards(tier, seed):
             out.append(dict(name="ohe/%s/%s" % (al, ig or "none"), kind="ohe", alphabet=al, ignore=ig,
                             weight=(len(al) + len(ig)) ** 4))
     out.append(dict(name="rc", kind="rc", weight=3000))
+    out.append(dict(name="long", kind="long", weight=2000))
     sizes = list(range(1, 7)) if tier == "quick" else list(range(1, 11)) + [16, 40]
     for size in sizes:
         out.append(dict(name="chunk/size%d" % size, kind="chunk", size=size, weight=size * 200))
@@ -225,8 +226,60 @@ def run_chunk(rec, sh, tier):
     rec.sample(dict(kind="chunk", size=size, overlaps=overlaps, lengths="size..3*size+2 (+5..7 chunks)"))
 
 
+def run_long(rec, tier, seed):
+    """dtype-width boundaries: strings / tensors of every length around 127/128, 255/256, 32767/32768, 65535/65536 (a fixed pattern)."""
+    from tangermeme.utils import characters, chunk, one_hot_encode, reverse_complement, unchunk
+    lens = [126, 127, 128, 129, 254, 255, 256, 257, 1000, 32766, 32767, 32768, 32769, 65535, 65536, 65537, 70001]
+    for L in lens:
+        i = numpy.arange(L)
+        codes = (i * i + i // 5 + (i % 11) + seed) % 5          # 0..3 = ACGT, 4 = N
+        s = "".join("ACGTN"[c] for c in codes)
+        rec.case(1, 1)
+        case = dict(fn="long", L=L, pattern="(i*i + i//5 + i%11 + seed) % 5")
+        st, x = call(one_hot_encode, s)
+        if st != "ok":
+            rec.violation("one_hot_encode:raises_long", case, observed=x)
+            continue
+        exp = numpy.zeros((4, L), dtype=numpy.int8)
+        m = codes < 4
+        exp[codes[m], i[m]] = 1
+        if tuple(x.shape) != (4, L) or not numpy.array_equal(x.numpy(), exp):
+            rec.violation("one_hot_encode:wrong_value_long", case)
+            continue
+        st, back = call(characters, x, allow_N=True)
+        if st != "ok" or back != s:
+            rec.violation("characters:wrong_value_long", case)
+            continue
+        st, r = call(reverse_complement, s)
+        st2, rx = call(reverse_complement, x)
+        comp = {"A": "T", "C": "G", "G": "C", "T": "A", "N": "N"}
+        if st != "ok" or st2 != "ok" or r != "".join(comp[c] for c in reversed(s)) or not torch.equal(rx, one_hot_encode(r)):
+            rec.violation("reverse_complement:wrong_long", case)
+            continue
+        # chunk / unchunk around the same boundaries
+        xv = (torch.arange(L, dtype=torch.float64)[None, :] + torch.tensor([[0.0], [0.5]], dtype=torch.float64))
+        for size, overlap in ((128, 0), (128, 1), (256, 7), (40, 39), (100, 50)):
+            if L < size:
+                continue
+            step = size - overlap
+            if (L - size) // step + 1 > 5000:
+                continue
+            st, ch = call(chunk, [xv], size=size, overlap=overlap)
+            st2, un = call(unchunk, ch, lengths=[L], overlap=overlap) if st == "ok" else ("raise", None)
+            nch = (L - size) // step + 1
+            covered = size + (nch - 1) * step
+            rec.case(1, 1)
+            if st != "ok" or st2 != "ok" or len(un) != 1 or tuple(un[0].shape) != (2, covered) or not torch.equal(un[0], xv[:, :covered]):
+                rec.violation("unchunk:wrong_value_long", dict(case, size=size, overlap=overlap))
+        rec.observe(L, int(exp.sum()))
+    rec.sample(dict(kind="long", lengths=lens))
+
+
 def run_shard(sh, tier, seed):
     rec = Recorder(PID, sh["name"])
+    if sh["kind"] == "long":
+        run_long(rec, tier, seed)
+        return rec.result()
     if sh["kind"] == "ohe":
         run_ohe(rec, sh, tier)
     elif sh["kind"] == "rc":
@@ -239,7 +292,9 @@ def run_shard(sh, tier, seed):
 def replay(v):
     rec = Recorder(PID, "replay")
     c = v["case"]
-    if v["sig"].startswith(("chunk", "unchunk")):
+    if v["sig"].endswith("_long"):
+        run_long(rec, "quick", 0)
+    elif v["sig"].startswith(("chunk", "unchunk")):
         run_chunk(rec, dict(size=c.get("size", 4)), "thorough")
     elif v["sig"].startswith("reverse"):
         run_rc(rec, "quick")
